@@ -5,8 +5,9 @@ from .. import core, faultgen, profgen
 class C22(core.Prop):
     id = "C22"
     drivers = [faultgen.DRIVER]
-    sizes = {"quick": 240, "thorough": 8000}
+    sizes = {"quick": 500, "thorough": 8000}
     max_workers = 6
+    ready = True
     technique = ("property-based testing (Hypothesis): generated profiles on a host and a link observed by isolated executions, "
                  "communications, samples and getters; reference model = the documented piecewise-constant function and its integral")
     rule = ("A scenario attaches 1-3 profiles (1-20 points at dates that are multiples of 1/8 s, duplicate dates and a point at date 0 allowed; "
@@ -44,7 +45,12 @@ class C22(core.Prop):
             raise core.Inconclusive()
         labels = set()
         if not log.done:
-            oc.bad(faultgen.crash_sig(log), "the run did not finish: " + log.crash_text())
+            sig = faultgen.crash_sig(log)
+            l0 = case["platform"]["links"][0]
+            if log.cpu_exceeded and l0.get("lat_profile", {}).get("period", -1) > 0:
+                # a flow frozen by a latency event (known finding) never ends while the periodic profile keeps the simulation going for ever
+                sig = "latency-event-disturbs-comm:run-does-not-terminate"
+            oc.bad(sig, "the run did not finish: " + log.crash_text())
             return oc
         profgen.check_c22(case, log, oc, labels)
         seen, uniq = set(), []
